@@ -245,3 +245,552 @@ Proof.
     + destruct Hsok as [_ Hw _]. rewrite (Hw row srow Hsrow). unfold zero_row. by rewrite replicate_length, Hsi1.
     + unfold zero_row. by rewrite replicate_length.
 Qed.
+
+(** ** The common tail of exchange and set-relation: move, target bit, cleanup *)
+Lemma move_cleanup_rok w1 live e src row dst keep target st dt sn1 dn :
+  store_ok w1 live -> rgraph_ok w1 -> e ∈ live -> loc w1 e = Some (src, row) -> src <> dst ->
+  w_tables w1 !! src = Some st -> w_tables w1 !! dst = Some dt ->
+  w_nodes w1 !! t_node st = Some sn1 -> w_nodes w1 !! t_node dt = Some dn -> t_active dt = true ->
+  let w4 := cleanup_table (set_tbit (move_entity w1 e src row dst keep) target) src in
+  store_ok w4 live /\ rgraph_ok w4 /\ w_pool w4 = w_pool w1 /\ length (w_index w4) = length (w_index w1) /\
+  w_reg w4 = w_reg w1 /\ nodes_same w1 w4 /\
+  (forall e', e' ∈ live -> e' <> e -> ent_cells w4 e' = ent_cells w1 e') /\
+  exists srow, t_rows st !! row = Some srow /\
+    ent_cells w4 e = Some (t_node dt, t_target dt, copy_cells keep (n_ids sn1) srow (n_ids dn) (zero_row dn)).
+Proof.
+  intros S1 G1 Hlive Hloc1 Hsd Hst1 Hdt Hsn1 Hdn Hdact.
+  assert (Hcap : 0 < node_capinc w1 dn).
+  { unfold node_capinc. destruct (rg_capinc _ G1). by destruct (node_has_rel dn). }
+  destruct (move_entity_ok w1 live e src row dst keep st dt sn1 dn S1 Hlive Hloc1 Hsd Hst1 Hdt Hsn1 Hdn Hcap)
+    as (S2 & Hn2 & Hp2 & Htb2 & Hc2 & Hlen2 & Hother & (srow & Hsrow & Hcells) & Htabs &
+        (st1 & Hst1' & _ & Hst1n & Hst1t & Hst1a & _) & (dt2 & Hdt2' & _ & Hdt2n & Hdt2t & Hdt2a & _)).
+  set (w2 := move_entity w1 e src row dst keep) in *.
+  assert (Hstne : t_ents st <> []).
+  { destruct (so_loc _ _ S1 e Hlive) as (tid & r & t & Hl & Ht & Hr). rewrite Hloc1 in Hl. injection Hl as <- <-.
+    rewrite Hst1 in Ht. injection Ht as <-. intros Hn. by rewrite Hn in Hr. }
+  assert (Hw2f : w_tb w2 = w_tb w1 /\ w_capinc w2 = w_capinc w1 /\ w_relcapinc w2 = w_relcapinc w1 /\ w_reg w2 = w_reg w1 /\
+                 length (w_index w2) = length (w_index w1)).
+  { unfold w2, move_entity. rewrite Hst1, Hdt, Hsn1, Hdn. destruct (tbl_alloc _ _ _ _). destruct (tbl_remove _ _ _) as [st1x sw].
+    simpl. repeat split; try done. rewrite insert_length. destruct sw; [|done]. destruct (t_ents st1x !! row); [|done]. by rewrite insert_length. }
+  destruct Hw2f as (Hw2tb & Hw2c & Hw2rc & Hw2reg & Hw2il).
+  assert (G2 : rgraph_ok w2).
+  { eapply (rgraph_ok_same_nodes w1 w2); try done.
+    - intros tid t Ht. destruct (decide (tid = src)) as [->|Hs].
+      + exists st1. rewrite Hst1 in Ht. injection Ht as <-. repeat split; try done; intros; congruence.
+      + destruct (decide (tid = dst)) as [->|Hd].
+        * exists dt2. rewrite Hdt in Ht. injection Ht as <-. repeat split; try done; intros; congruence.
+        * exists t. by rewrite Htabs.
+    - intros tid t' Ht'. apply lookup_lt_is_Some. rewrite <- Hlen2. by apply lookup_lt_Some in Ht'. }
+  set (w3 := set_tbit w2 target).
+  assert (Hw3 : w_nodes w3 = w_nodes w2 /\ w_tables w3 = w_tables w2 /\ w_index w3 = w_index w2 /\ w_reg w3 = w_reg w2 /\
+                w_pool w3 = w_pool w2 /\ store_ok w3 live).
+  { unfold w3, set_tbit. destruct (ent_is_zero target); [done|]. simpl. do 5 (split; [done|]).
+    destruct S2 as [A1 A2 A3 A4]. split; [exact A1|exact A2|exact A3|exact A4]. }
+  destruct Hw3 as (Hn3 & Ht3 & Hi3 & Hr3 & Hp3 & S3).
+  assert (G3 : rgraph_ok w3) by (by apply set_tbit_rok).
+  destruct (cleanup_table_keeps w3 live src S3) as (S4 & Hp4 & Hcells4).
+  pose proof (cleanup_table_rok w3 src G3) as G4.
+  assert (Hcells3 : forall e0, ent_cells w3 e0 = ent_cells w2 e0) by (intros; by apply ent_cells_same).
+  assert (Hsame : forall w5, (w5 = w3 \/ w5 = retire_table w3 src) -> w_reg w5 = w_reg w3 /\ length (w_index w5) = length (w_index w3)).
+  { intros w5 [->| ->]; [done|]. unfold retire_table. destruct (w_tables w3 !! src) as [t5|]; [|done]. by destruct (w_nodes w3 !! t_node t5). }
+  assert (Hcl : cleanup_table w3 src = w3 \/ cleanup_table w3 src = retire_table w3 src).
+  { unfold cleanup_table. destruct (w_tables w3 !! src) as [tt|]; [|by left].
+    destruct (w_nodes w3 !! t_node tt); [|by left]. destruct (_ || _); [by left|]. destruct (_ || _); [by left|by right]. }
+  destruct (Hsame _ Hcl) as [Hreg4 Hil4].
+  split; [done|]. split; [done|]. split; [by rewrite Hp4, Hp3, Hp2|]. split; [by rewrite Hil4, Hi3|].
+  split; [by rewrite Hreg4, Hr3|]. split.
+  { eapply nodes_same_trans; [apply (nodes_same_eq w1 w3); congruence|apply cleanup_table_nodes]. }
+  split.
+  - intros e' He' Hne. by rewrite Hcells4, Hcells3, (Hother e' He' Hne).
+  - exists srow. split; [done|]. by rewrite Hcells4, Hcells3.
+Qed.
+
+(** Copying all columns of a row into a zero row of the same layout gives the row back. *)
+Lemma copy_cells_id tb m ids srow :
+  ids = mask_ids tb m -> length srow = length ids ->
+  copy_cells m ids srow ids (replicate (length ids) 0%Z) = srow.
+Proof.
+  intros Hids Hlen. assert (Hnd : NoDup ids) by (rewrite Hids; apply NoDup_filter, NoDup_seq).
+  apply list_eq. intros j. destruct (ids !! j) as [id|] eqn:Hj.
+  - rewrite (copy_cells_spec m ids srow ids _ j id Hnd Hnd Hlen); [|by rewrite replicate_length|done].
+    assert (Hb : bit m id = true).
+    { apply elem_of_list_lookup_2 in Hj. rewrite Hids in Hj. unfold mask_ids in Hj. by apply elem_of_list_filter in Hj as [? _]. }
+    by rewrite Hb, (find_index_nodup _ j id Hnd Hj).
+  - apply lookup_ge_None in Hj. rewrite (proj2 (lookup_ge_None srow j)) by lia.
+    apply lookup_ge_None. rewrite copy_cells_length, replicate_length. done.
+Qed.
+
+(** ** Relations.Set *)
+Theorem set_relation_rok w live e rid target w' evs :
+  world_okr w live -> e ∈ live ->
+  op_set_relation w e rid target = (w', Ok VUnit, evs) ->
+  world_okr w' live /\ w_pool w' = w_pool w /\ length (w_index w') = length (w_index w) /\ w_reg w' = w_reg w /\
+  (forall e', e' ∈ live -> e' <> e ->
+     ent_mask w' e' = ent_mask w e' /\ ent_target w' e' = ent_target w e' /\ ent_rel w' e' = ent_rel w e' /\
+     forall id, comp_val w' e' id = comp_val w e' id) /\
+  ent_rel w e = Some (Some rid) /\ ent_rel w' e = Some (Some rid) /\ ent_mask w' e = ent_mask w e /\
+  ent_target w' e = Some target /\ forall id, comp_val w' e id = comp_val w e id.
+Proof.
+  intros [S G] Hlive H. unfold op_set_relation in H.
+  destruct (is_locked w); [done|]. destruct (chk_alive w e) as [[]|] eqn:Hal; try done.
+  destruct (negb (target_ok w target)); [done|].
+  destruct (so_loc _ _ S e Hlive) as (src & row & st & Hloc & Hst & Hrow).
+  destruct (so_table _ _ S src st Hst) as (sn & Hsn & Hsok).
+  unfold ent_table in H. rewrite Hal, Hloc, Hst, Hsn in H.
+  destruct (negb (check_relation w src rid)) eqn:Hchk; [done|]. apply negb_false_iff in Hchk.
+  unfold check_relation in Hchk. rewrite Hst, Hsn in Hchk.
+  destruct (n_rel sn) as [r|] eqn:Hrel; [|done]. apply Nat.eqb_eq in Hchk as ->.
+  assert (Hsrow : exists srow, t_rows st !! row = Some srow).
+  { destruct Hsok as [Hl _ _]. apply lookup_lt_is_Some. apply lookup_lt_Some in Hrow. unfold tlen in Hl. lia. }
+  destruct Hsrow as [srow Hsrow].
+  assert (Hce : ent_cells w e = Some (t_node st, t_target st, srow)).
+  { unfold ent_cells. rewrite Hloc. simpl. rewrite Hst. simpl. by rewrite Hsrow. }
+  assert (Hrel0 : ent_rel w e = Some (Some rid)) by (unfold ent_rel; rewrite Hce; simpl; rewrite Hsn; simpl; by rewrite Hrel).
+  destruct (ent_eqb (t_target st) target) eqn:Heq.
+  { injection H as <- _. apply ent_eqb_eq in Heq. split; [done|]. do 3 (split; [done|]). split; [done|].
+    split; [done|]. split; [done|]. split; [done|]. split; [|done]. unfold ent_target. rewrite Hce. simpl. by rewrite Heq. }
+  apply ent_eqb_neq in Heq.
+  assert (Hstne : t_ents st <> []) by (intros Hn; by rewrite Hn in Hrow).
+  (* destination table *)
+  assert (Hdst : exists w1 dst dt dn, (match node_get_table sn target with
+                            | Some tid => (w, tid)
+                            | None => create_table w (t_node st) target true
+                            end) = (w1, dst) /\ ext_r w w1 /\ rgraph_ok w1 /\
+            w_tables w1 !! dst = Some dt /\ t_node dt = t_node st /\ t_target dt = target /\ t_active dt = true /\
+            w_nodes w1 !! t_node st = Some dn /\ n_mask dn = n_mask sn /\ n_ids dn = n_ids sn /\ n_rel dn = n_rel sn).
+  { destruct (node_get_table sn target) as [tid|] eqn:Hget.
+    - unfold node_get_table in Hget. rewrite (proj2 (node_has_rel_true sn) (ex_intro _ rid Hrel)) in Hget.
+      destruct (rg_tmap _ G _ sn target tid Hsn Hget) as (t & Ht & Htn & Htt & Hta).
+      exists w, tid, t, sn. split; [done|]. split; [apply ext_r_refl|]. done.
+    - pose proof (create_table_rok w (t_node st) sn target true G Hsn Hget) as Hc.
+      destruct (create_table w (t_node st) target true) as [wc tid].
+      destruct Hc as (E3 & G3 & t & nd' & Ht & Htn & _ & Hta & Htt & Hnd' & Hmn & Hrn & Hin).
+      rewrite (proj2 (node_has_rel_true sn) (ex_intro _ rid Hrel)) in Htt.
+      exists wc, tid, t, nd'. done. }
+  destruct Hdst as (w1 & dst & dt & dn & Hgt & E & G1 & Hdt & Hdtn & Hdtt & Hdta & Hdn & Hdm & Hdi & Hdr).
+  rewrite Hgt in H. injection H as <- _.
+  assert (S1 : store_ok w1 live) by (by eapply ext_r_store_ok).
+  assert (Hst1 : w_tables w1 !! src = Some st).
+  { destruct (xr_tables _ _ E src st Hst) as (t' & Ht' & _ & _ & _ & _ & Q). by rewrite (Q Hstne) in Ht'. }
+  assert (Hsd : src <> dst).
+  { intros <-. rewrite Hst1 in Hdt. injection Hdt as <-. done. }
+  assert (Hloc1 : loc w1 e = Some (src, row)) by (by rewrite (ext_r_loc _ _ _ E)).
+  assert (Hdn' : w_nodes w1 !! t_node dt = Some dn) by (by rewrite Hdtn).
+  destruct (move_cleanup_rok w1 live e src row dst (n_mask sn) target st dt dn dn S1 G1 Hlive Hloc1 Hsd Hst1 Hdt Hdn Hdn' Hdta)
+    as (S4 & G4 & Hp4 & Hil4 & Hreg4 & HN4 & Hother & (srow' & Hsrow' & Hce4)).
+  rewrite Hsrow in Hsrow'. injection Hsrow' as <-.
+  set (w4 := cleanup_table (set_tbit (move_entity w1 e src row dst (n_mask sn)) target) src) in *.
+  assert (HN : nodes_same w w4) by (eapply nodes_same_trans; [apply (ext_r_nodes _ _ E)|done]).
+  split; [by split|]. split; [by rewrite Hp4, (xr_pool _ _ E)|]. split; [by rewrite Hil4, (xr_index _ _ E)|].
+  split; [by rewrite Hreg4, (xr_reg _ _ E)|]. split.
+  { intros e' He' Hne. apply (views_same w w4 live e' S He' HN). rewrite (Hother e' He' Hne). by apply (ext_r_cells w w1 live). }
+  split; [done|].
+  (* the row is copied unchanged *)
+  assert (Hrow_same : copy_cells (n_mask sn) (n_ids dn) srow (n_ids dn) (zero_row dn) = srow).
+  { unfold zero_row. rewrite Hdi. apply (copy_cells_id (w_tb w)); [by apply (rg_ids _ G _ _ Hsn)|].
+    destruct Hsok as [_ Hw _]. rewrite (Hw row srow Hsrow). unfold zero_row. by rewrite replicate_length. }
+  rewrite Hrow_same, Hdtn, Hdtt in Hce4.
+  destruct (HN _ sn Hsn) as (sn4 & Hsn4 & Hm4 & Hi4 & Hr4).
+  split; [unfold ent_rel; rewrite Hce4; simpl; rewrite Hsn4; simpl; congruence|].
+  split; [unfold ent_mask; rewrite Hce4, Hce; simpl; rewrite Hsn4, Hsn; simpl; congruence|].
+  split; [unfold ent_target; by rewrite Hce4|].
+  intros id. unfold comp_val. rewrite Hce4, Hce. simpl. rewrite Hsn4, Hsn. simpl. unfold col_of. by rewrite Hi4.
+Qed.
+
+(** ** Fields that retirement and cleanup never touch *)
+Definition side_same (w w' : world) : Prop :=
+  w_pool w' = w_pool w /\ w_index w' = w_index w /\ w_tbits w' = w_tbits w /\ w_reg w' = w_reg w /\
+  w_tb w' = w_tb w /\ w_locks w' = w_locks w /\ w_capinc w' = w_capinc w /\ w_relcapinc w' = w_relcapinc w /\
+  length (w_tables w') = length (w_tables w).
+Lemma side_same_refl w : side_same w w.
+Proof. by repeat split. Qed.
+Lemma side_same_trans a b c : side_same a b -> side_same b c -> side_same a c.
+Proof. intros (A1&A2&A3&A4&A5&A6&A7&A8&A9) (B1&B2&B3&B4&B5&B6&B7&B8&B9). repeat split; congruence. Qed.
+Lemma retire_table_side w tid : side_same w (retire_table w tid).
+Proof.
+  unfold retire_table. destruct (w_tables w !! tid) as [t|]; [|apply side_same_refl].
+  destruct (w_nodes w !! t_node t); [|apply side_same_refl]. repeat split; simpl; try done. by rewrite insert_length.
+Qed.
+Lemma cleanup_table_side w tid : side_same w (cleanup_table w tid).
+Proof.
+  unfold cleanup_table. destruct (w_tables w !! tid) as [t|]; [|apply side_same_refl].
+  destruct (w_nodes w !! t_node t); [|apply side_same_refl].
+  destruct (_ || _); [apply side_same_refl|]. destruct (_ || _); [apply side_same_refl|]. apply retire_table_side.
+Qed.
+Lemma cleanup_tables_for_side w target : side_same w (cleanup_tables_for w target).
+Proof.
+  unfold cleanup_tables_for. generalize (seq 0 (length (w_nodes w))). intros l. revert w.
+  induction l as [|nid l IH]; intros w; simpl; [apply side_same_refl|].
+  eapply side_same_trans; [|apply IH].
+  destruct (w_nodes w !! nid) as [nd|]; [|apply side_same_refl].
+  destruct (assoc_get target (n_tmap nd)) as [tid|]; [|apply side_same_refl].
+  destruct (w_tables w !! tid) as [t|]; [|apply side_same_refl].
+  destruct (tlen t =? 0); [apply retire_table_side|apply side_same_refl].
+Qed.
+
+(** ** The invariant with the entity pool *)
+Record world_okr2 (w : world) (live issued : list Entity) : Prop := {
+  r2_ok : world_okr w live;
+  r2_pool : exists frees, Proofs.PoolInv.pool_inv (w_pool w) live issued frees;
+  r2_ilen : length (w_index w) = length (p_ents (w_pool w));
+}.
+
+Lemma chk_alive_live_r w live issued e :
+  world_okr2 w live issued -> e ∈ issued -> chk_alive w e = Some true -> e ∈ live.
+Proof.
+  intros [_ [frees P] _] Hi Ha.
+  apply (Proofs.PoolInv.pool_alive_iff (w_pool w) live issued frees e P Hi).
+  unfold chk_alive in Ha. unfold pool_alive. by rewrite Ha.
+Qed.
+
+(** ** Entity creation, with or without a relation target *)
+Lemma walk_add_exmask ids : forall w start m rel r, walk_add w start m rel ids = Some r -> is_Some (exmask_add m ids).
+Proof.
+  induction ids as [|id ids IH]; intros w start m rel r H; simpl in *; [by eexists|].
+  destruct (bit m id); [done|]. destruct (bit start id); [done|]. destruct (_ && _); [done|]. by eapply IH.
+Qed.
+
+Lemma create_entity_tables w tid :
+  let '(w', e) := create_entity w tid in
+  w_relcapinc w' = w_relcapinc w /\ length (w_tables w') = length (w_tables w) /\ w_locks w' = w_locks w /\
+  (forall tid', tid' <> tid -> w_tables w' !! tid' = w_tables w !! tid') /\
+  (forall t, w_tables w !! tid = Some t -> exists t', w_tables w' !! tid = Some t' /\ t_node t' = t_node t /\
+      t_target t' = t_target t /\ t_active t' = t_active t).
+Proof.
+  unfold create_entity. destruct (w_tables w !! tid) as [t|] eqn:Ht; [|by repeat split; intros; try done; eauto].
+  destruct (w_nodes w !! t_node t) as [nd|]; [|split; [done|]; split; [done|]; split; [done|]; split; [done|]; intros t0 [= <-]; by exists t].
+  destruct (pool_get (w_pool w)) as [p e]. unfold tbl_alloc.
+  set (t1 := tbl_extend (node_capinc w nd) (zero_row nd) t 1).
+  assert (Hf : t_node t1 = t_node t /\ t_target t1 = t_target t /\ t_active t1 = t_active t).
+  { unfold t1, tbl_extend. by destruct (_ <=? _). }
+  simpl. destruct (eid e =? _); simpl; (split; [done|]; split; [by rewrite insert_length|]; split; [done|]; split;
+    [intros tid' Hne; by rewrite list_lookup_insert_ne|
+     intros t0 [= <-]; eexists; split; [apply list_lookup_insert; by apply lookup_lt_Some in Ht|done]]).
+Qed.
+
+Lemma new_table_rok w ids target w1 tid :
+  rgraph_ok w -> Forall (fun id => id < length (w_reg w)) ids ->
+  (match ids with [] => Some (w, 0) | _ => find_or_create_table w 0 ids [] target end) = Some (w1, tid) ->
+  ext_r w w1 /\ rgraph_ok w1 /\
+  exists dt dn, w_tables w1 !! tid = Some dt /\ w_nodes w1 !! t_node dt = Some dn /\
+    exmask_add 0 ids = Some (n_mask dn) /\ t_active dt = true /\
+    t_target dt = (if node_has_rel dn then target else ezero).
+Proof.
+  intros G Hreg H. destruct (rg_table0 _ G) as (t0 & n0 & Ht0 & Hn0 & Hm0).
+  destruct ids as [|i0 ids'].
+  - injection H as <- <-. split; [apply ext_r_refl|]. split; [done|]. exists t0, n0. simpl. rewrite Hm0.
+    destruct (rg_table _ G 0 t0 Ht0) as (n1 & Hn1 & _ & Hrest). rewrite Hn0 in Hn1. injection Hn1 as <-.
+    assert (Hr : n_rel n0 = None).
+    { destruct (n_rel n0) as [r|] eqn:Hr; [|done]. pose proof (rg_rel _ G _ n0 Hn0 r) as [_ HH].
+      destruct (HH Hr) as [Hb _]. by rewrite Hm0, bit_zero in Hb. }
+    rewrite Hr in Hrest. destruct Hrest as (_ & Htt & Hta). rewrite (proj2 (node_has_rel_false n0) Hr). done.
+  - assert (Hm : exists mask, exchange_mask (n_mask n0) (i0 :: ids') [] = Some mask).
+    { unfold find_or_create_table in H. rewrite Ht0, Hn0 in H. cbn [walk_rem] in H.
+      destruct (walk_add w (n_mask n0) (n_mask n0) (n_rel n0) (i0 :: ids')) as [r|] eqn:Hw; [|done].
+      apply walk_add_exmask in Hw as [mask Hm]. exists mask. unfold exchange_mask. cbn [exmask_rem]. simpl. exact Hm. }
+    destruct Hm as [mask Hmask].
+    destruct (find_or_create_table_rok w 0 (i0 :: ids') [] target t0 n0 mask w1 tid G Ht0 Hn0 Hmask Hreg H)
+      as (E & G1 & dt & dn & Hdt & Hdn & Hdm & Hda & Hdt').
+    split; [done|]. split; [done|]. exists dt, dn. split; [done|]. split; [done|]. split; [|done].
+    unfold exchange_mask in Hmask. cbn [exmask_rem] in Hmask. simpl in Hmask. rewrite Hm0 in Hmask. by rewrite Hdm.
+Qed.
+
+Lemma create_in_table_rok w1 live issued tid dt dn :
+  world_okr2 w1 live issued -> w_tables w1 !! tid = Some dt -> w_nodes w1 !! t_node dt = Some dn -> t_active dt = true ->
+  let '(w2, e) := create_entity w1 tid in
+  e ∉ issued /\ world_okr2 w2 (e :: live) (e :: issued) /\ w_nodes w2 = w_nodes w1 /\ w_reg w2 = w_reg w1 /\
+  w_tb w2 = w_tb w1 /\ w_locks w2 = w_locks w1 /\
+  (forall e', e' ∈ live -> ent_cells w2 e' = ent_cells w1 e') /\
+  ent_cells w2 e = Some (t_node dt, t_target dt, zero_row dn).
+Proof.
+  intros [[S1 G1] [frees P1] L1] Hdt Hdn Hact.
+  assert (Hcap : 0 < node_capinc w1 dn).
+  { unfold node_capinc. destruct (rg_capinc _ G1). by destruct (node_has_rel dn). }
+  pose proof (create_entity_ok w1 live issued frees tid dt dn S1 P1 L1 Hdt Hdn Hcap) as Hc.
+  pose proof (create_entity_tables w1 tid) as Ht.
+  destruct (create_entity w1 tid) as [w2 e2].
+  destruct Hc as (Hnl & Hni & S2 & P2 & L2 & Hn2 & Hr2 & Htb2 & Hci2 & Hold & Hnew & Htn).
+  destruct Ht as (Hrc & Hlen & Hlk & Hoth & Hsame).
+  assert (G2 : rgraph_ok w2).
+  { eapply (rgraph_ok_same_nodes w1 w2); try done.
+    - intros tid0 t Ht0. destruct (decide (tid0 = tid)) as [->|Hne].
+      + destruct (Hsame t Ht0) as (t' & Ht' & A & B & C). exists t'. rewrite Hdt in Ht0. injection Ht0 as <-.
+        repeat split; try done. intros; congruence.
+      + exists t. rewrite (Hoth tid0 Hne). done.
+    - intros tid0 t' Ht'. apply lookup_lt_is_Some. rewrite <- Hlen. by apply lookup_lt_Some in Ht'. }
+  split; [done|]. split; [split; [by split|done|done]|]. done.
+Qed.
+
+Theorem new_entity_rok w live issued ids w' e evs :
+  world_okr2 w live issued -> Forall (fun id => id < length (w_reg w)) ids ->
+  op_new w ids [] = (w', Ok (VEnt e), evs) ->
+  e ∉ issued /\ world_okr2 w' (e :: live) (e :: issued) /\ w_reg w' = w_reg w /\
+  (forall e', e' ∈ live -> ent_mask w' e' = ent_mask w e' /\ ent_target w' e' = ent_target w e' /\
+      ent_rel w' e' = ent_rel w e' /\ forall id, comp_val w' e' id = comp_val w e' id) /\
+  exists mask rel, exmask_add 0 ids = Some mask /\ ent_mask w' e = Some mask /\ ent_rel w' e = Some rel /\
+    relP w mask rel /\ ent_target w' e = Some ezero /\
+    forall id, id < w_tb w -> bit mask id = true -> comp_val w' e id = Some 0%Z.
+Proof.
+  intros K Hreg H. unfold op_new in H. destruct (is_locked w); [done|].
+  destruct (match ids with [] => Some (w, 0) | _ => find_or_create_table w 0 ids [] ezero end) as [[w1 tid]|] eqn:Hf; [|done].
+  destruct K as [[S G] [frees P] L].
+  destruct (new_table_rok w ids ezero w1 tid G Hreg Hf) as (E & G1 & dt & dn & Hdt & Hdn & Hdm & Hda & Hdtg).
+  assert (K1 : world_okr2 w1 live issued).
+  { split; [split; [by eapply ext_r_store_ok|done]|exists frees; by rewrite (xr_pool _ _ E)|by rewrite (xr_index _ _ E), (xr_pool _ _ E)]. }
+  pose proof (create_in_table_rok w1 live issued tid dt dn K1 Hdt Hdn Hda) as Hc.
+  destruct (create_entity w1 tid) as [w2 e2]. simpl in H.
+  destruct Hc as (Hni & K2 & Hn2 & Hr2 & Htb2 & _ & Hold & Hnew).
+  destruct (table_mask_rel w2 tid). injection H as <- <- _.
+  split; [done|]. split; [done|]. split; [by rewrite Hr2, (xr_reg _ _ E)|].
+  assert (HN : nodes_same w w2) by (eapply nodes_same_trans; [apply (ext_r_nodes _ _ E)|by apply nodes_same_eq]).
+  split.
+  { intros e' He'. apply (views_same w w2 live e' S He' HN). rewrite (Hold e' He'). by apply (ext_r_cells w w1 live). }
+  exists (n_mask dn), (n_rel dn). split; [done|].
+  split; [unfold ent_mask; rewrite Hnew; simpl; rewrite Hn2, Hdn; done|].
+  split; [unfold ent_rel; rewrite Hnew; simpl; rewrite Hn2, Hdn; done|].
+  split.
+  { intros id. pose proof (rg_rel _ G1 _ dn Hdn id) as HH. unfold reg_is_rel in *. by rewrite (xr_reg _ _ E) in HH. }
+  split; [unfold ent_target; rewrite Hnew; simpl; rewrite Hdtg; by destruct (node_has_rel dn)|].
+  intros id Hid Hbit. unfold comp_val. rewrite Hnew. simpl. rewrite Hn2, Hdn. simpl.
+  assert (Hdids : n_ids dn = mask_ids (w_tb w) (n_mask dn)) by (rewrite (rg_ids _ G1 _ _ Hdn), (xr_tb _ _ E); done).
+  assert (Hin : id ∈ n_ids dn).
+  { rewrite Hdids. unfold mask_ids. apply elem_of_list_filter. split; [done|]. apply elem_of_seq. lia. }
+  apply elem_of_list_lookup in Hin as [j Hj].
+  assert (Hndd : NoDup (n_ids dn)) by (rewrite Hdids; apply NoDup_filter, NoDup_seq).
+  unfold col_of. rewrite (find_index_nodup _ j id Hndd Hj). simpl.
+  unfold zero_row. apply lookup_replicate_2. by apply lookup_lt_Some in Hj.
+Qed.
+
+Theorem new_entity_target_rok w live issued rid target ids w' e evs :
+  world_okr2 w live issued -> Forall (fun id => id < length (w_reg w)) ids ->
+  op_new_target w rid target ids [] = (w', Ok (VEnt e), evs) ->
+  e ∉ issued /\ world_okr2 w' (e :: live) (e :: issued) /\ w_reg w' = w_reg w /\
+  (forall e', e' ∈ live -> ent_mask w' e' = ent_mask w e' /\ ent_target w' e' = ent_target w e' /\
+      ent_rel w' e' = ent_rel w e' /\ forall id, comp_val w' e' id = comp_val w e' id) /\
+  exists mask, exmask_add 0 ids = Some mask /\ ent_mask w' e = Some mask /\ ent_rel w' e = Some (Some rid) /\
+    ent_target w' e = Some target /\
+    forall id, id < w_tb w -> bit mask id = true -> comp_val w' e id = Some 0%Z.
+Proof.
+  intros K Hreg H. unfold op_new_target in H. destruct (is_locked w); [done|].
+  destruct (negb (target_ok w target)); [done|].
+  destruct (match ids with [] => Some (w, 0) | _ => find_or_create_table w 0 ids [] target end) as [[w1 tid]|] eqn:Hf; [|done].
+  destruct K as [[S G] [frees P] L].
+  destruct (new_table_rok w ids target w1 tid G Hreg Hf) as (E & G1 & dt & dn & Hdt & Hdn & Hdm & Hda & Hdtg).
+  destruct (negb (check_relation w1 tid rid)) eqn:Hchk; [done|]. apply negb_false_iff in Hchk.
+  unfold check_relation in Hchk. rewrite Hdt, Hdn in Hchk. destruct (n_rel dn) as [r|] eqn:Hrel; [|done].
+  apply Nat.eqb_eq in Hchk as ->. rewrite (proj2 (node_has_rel_true dn) (ex_intro _ rid Hrel)) in Hdtg.
+  assert (K1 : world_okr2 w1 live issued).
+  { split; [split; [by eapply ext_r_store_ok|done]|exists frees; by rewrite (xr_pool _ _ E)|by rewrite (xr_index _ _ E), (xr_pool _ _ E)]. }
+  pose proof (create_in_table_rok w1 live issued tid dt dn K1 Hdt Hdn Hda) as Hc.
+  destruct (create_entity w1 tid) as [w2 e2]. simpl in H.
+  destruct Hc as (Hni & K2 & Hn2 & Hr2 & Htb2 & _ & Hold & Hnew).
+  destruct (table_mask_rel (set_tbit w2 target) tid). injection H as <- <- _.
+  assert (Hsb : w_nodes (set_tbit w2 target) = w_nodes w2 /\ w_tables (set_tbit w2 target) = w_tables w2 /\
+                w_index (set_tbit w2 target) = w_index w2 /\ w_reg (set_tbit w2 target) = w_reg w2 /\
+                w_pool (set_tbit w2 target) = w_pool w2).
+  { unfold set_tbit. by destruct (ent_is_zero target). }
+  destruct Hsb as (Hn3 & Ht3 & Hi3 & Hr3 & Hp3).
+  assert (Hcells3 : forall e0, ent_cells (set_tbit w2 target) e0 = ent_cells w2 e0) by (intros; by apply ent_cells_same).
+  split; [done|]. split.
+  { destruct K2 as [[S2 G2] P2 L2]. split; [split; [|by apply set_tbit_rok]|by rewrite Hp3|by rewrite Hi3, Hp3].
+    destruct S2 as [A1 A2 A3 A4]. split; unfold loc in *; rewrite ?Hi3, ?Ht3, ?Hn3; done. }
+  split; [by rewrite Hr3, Hr2, (xr_reg _ _ E)|].
+  assert (HN : nodes_same w (set_tbit w2 target)).
+  { eapply nodes_same_trans; [apply (ext_r_nodes _ _ E)|]. apply nodes_same_eq. congruence. }
+  split.
+  { intros e' He'. apply (views_same w _ live e' S He' HN). rewrite Hcells3, (Hold e' He'). by apply (ext_r_cells w w1 live). }
+  exists (n_mask dn). split; [done|]. rewrite <- Hcells3 in Hnew.
+  split; [unfold ent_mask; rewrite Hnew; simpl; rewrite Hn3, Hn2, Hdn; done|].
+  split; [unfold ent_rel; rewrite Hnew; simpl; rewrite Hn3, Hn2, Hdn; simpl; by rewrite Hrel|].
+  split; [unfold ent_target; rewrite Hnew; simpl; by rewrite Hdtg|].
+  intros id Hid Hbit. unfold comp_val. rewrite Hnew. simpl. rewrite Hn3, Hn2, Hdn. simpl.
+  assert (Hdids : n_ids dn = mask_ids (w_tb w) (n_mask dn)) by (rewrite (rg_ids _ G1 _ _ Hdn), (xr_tb _ _ E); done).
+  assert (Hin : id ∈ n_ids dn).
+  { rewrite Hdids. unfold mask_ids. apply elem_of_list_filter. split; [done|]. apply elem_of_seq. lia. }
+  apply elem_of_list_lookup in Hin as [j Hj].
+  assert (Hndd : NoDup (n_ids dn)) by (rewrite Hdids; apply NoDup_filter, NoDup_seq).
+  unfold col_of. rewrite (find_index_nodup _ j id Hndd Hj). simpl.
+  unfold zero_row. apply lookup_replicate_2. by apply lookup_lt_Some in Hj.
+Qed.
+
+(** ** RemoveEntity, including the cleanup of the tables that had the entity as target *)
+Lemma remove_entity_graph w live e :
+  store_ok w live -> rgraph_ok w -> e ∈ live -> chk_alive w e = Some true -> is_locked w = false ->
+  let w' := fst (fst (op_remove_entity w e)) in
+  rgraph_ok w' /\ nodes_same w w' /\ w_reg w' = w_reg w /\ length (w_index w') = length (w_index w) /\
+  length (p_ents (w_pool w')) = length (p_ents (w_pool w)).
+Proof.
+  intros S G He Hal HL. unfold op_remove_entity. rewrite HL.
+  destruct (so_loc _ _ S e He) as (src & row & st & Hloc & Hst & Hrow).
+  destruct (so_table _ _ S src st Hst) as (sn & Hsn & Hok).
+  unfold ent_table. rewrite Hal, Hloc, Hst, Hsn.
+  assert (Hrlt : row < tlen st) by (by apply lookup_lt_Some in Hrow).
+  pose proof (tbl_remove_spec (zero_row sn) st row Hok Hrlt) as HR.
+  destruct (tbl_remove (zero_row sn) st row) as [st1 swapped].
+  destruct HR as (_ & _ & _ & _ & _ & _ & Hst1n & Hst1t & Hst1a & _).
+  match goal with |- context [cleanup_table ?x src] => set (w2 := x) end.
+  match goal with _ := (if tbit ?y _ then _ else _) |- _ => set (w1 := y) in * end.
+  simpl.
+  assert (Hstne : t_ents st <> []) by (intros Hn; by rewrite Hn in Hrow).
+  assert (G1 : rgraph_ok w1).
+  { eapply (rgraph_ok_same_nodes w w1); try done.
+    - intros tid t Ht. simpl. destruct (decide (tid = src)) as [->|Hne].
+      + exists st1. rewrite list_lookup_insert by (by apply lookup_lt_Some in Hst). rewrite Hst in Ht. injection Ht as <-.
+        repeat split; try done; intros; congruence.
+      + exists t. by rewrite list_lookup_insert_ne.
+    - intros tid t' Ht'. apply lookup_lt_is_Some. apply lookup_lt_Some in Ht'. simpl in Ht'. by rewrite insert_length in Ht'. }
+  assert (Hi1 : length (w_index w1) = length (w_index w)).
+  { simpl. rewrite insert_length. destruct swapped; [|done]. destruct (t_ents st1 !! row); [|done]. by rewrite insert_length. }
+  assert (Hp1 : length (p_ents (w_pool w1)) = length (p_ents (w_pool w))).
+  { simpl. unfold pool_recycle. destruct (p_ents (w_pool w) !! eid e) as [[? ?]|]; [|done]. simpl. by rewrite insert_length. }
+  assert (H2 : rgraph_ok w2 /\ nodes_same w1 w2 /\ w_reg w2 = w_reg w1 /\ w_index w2 = w_index w1 /\ w_pool w2 = w_pool w1).
+  { unfold w2. destruct (tbit w1 (eid e)); [|split; [done|]; split; [apply nodes_same_refl|done]].
+    pose proof (cleanup_tables_for_rok w1 e G1) as Ga.
+    destruct (cleanup_tables_for_side w1 e) as (A1&A2&A3&A4&A5&A6&A7&A8&A9).
+    split.
+    - eapply (rgraph_ok_same_nodes (cleanup_tables_for w1 e)); try done. intros tid t Ht. exists t. done.
+    - split; [|done]. eapply nodes_same_trans; [apply cleanup_tables_for_nodes|]. by apply nodes_same_eq. }
+  destruct H2 as (G2 & N2 & R2 & I2 & P2).
+  destruct (cleanup_table_side w2 src) as (A1&A2&A3&A4&A5&A6&A7&A8&A9).
+  split; [by apply cleanup_table_rok|]. split.
+  { eapply nodes_same_trans; [apply (nodes_same_eq w w1); done|].
+    eapply nodes_same_trans; [exact N2|apply cleanup_table_nodes]. }
+  split; [by rewrite A4, R2|]. split; [by rewrite A2, I2|]. by rewrite A1, P2.
+Qed.
+
+Theorem remove_entity_rok w live issued e :
+  world_okr2 w live issued -> e ∈ live -> (egen e < gen_max)%N -> is_locked w = false ->
+  let r := op_remove_entity w e in
+  snd (fst r) = Ok VUnit /\ world_okr2 (fst (fst r)) (filter (fun x => x <> e) live) issued /\
+  w_reg (fst (fst r)) = w_reg w /\
+  (forall e', e' ∈ live -> e' <> e ->
+     ent_mask (fst (fst r)) e' = ent_mask w e' /\ ent_target (fst (fst r)) e' = ent_target w e' /\
+     ent_rel (fst (fst r)) e' = ent_rel w e' /\ forall id, comp_val (fst (fst r)) e' id = comp_val w e' id) /\
+  pool_alive (w_pool (fst (fst r))) e = false.
+Proof.
+  intros [[S G] [frees P] L] He Hg HL.
+  destruct (remove_entity_ok w live issued frees e S P He Hg HL) as (Hok & S' & P' & Hcells & Hdead).
+  assert (Hal : chk_alive w e = Some true) by (unfold chk_alive; by rewrite (live_chk_alive _ _ _ _ _ P He)).
+  destruct (remove_entity_graph w live e S G He Hal HL) as (G' & HN & Hreg & Hil & Hpl).
+  simpl. split; [done|]. split; [split; [by split|by eexists|congruence]|]. split; [done|]. split; [|done].
+  intros e' He' Hne. apply (views_same w _ live e' S He' HN). by apply Hcells.
+Qed.
+
+(** ** Registration of any component type, relation or not *)
+Lemma extend_layouts_lookup w n tid :
+  w_tables (extend_layouts w n) !! tid =
+    (fun t => match w_nodes w !! t_node t with
+              | Some nd => if n_active nd && (t_layouts t <? n) then t <| t_layouts := n |> else t
+              | None => t end) <$> w_tables w !! tid.
+Proof. unfold extend_layouts. simpl. by rewrite list_lookup_fmap. Qed.
+
+Lemma extend_layouts_same w n tid t :
+  w_tables w !! tid = Some t -> exists t', w_tables (extend_layouts w n) !! tid = Some t' /\
+    t_ents t' = t_ents t /\ t_rows t' = t_rows t /\ t_node t' = t_node t /\ t_target t' = t_target t /\ t_active t' = t_active t.
+Proof.
+  intros Ht. rewrite extend_layouts_lookup, Ht. simpl. eexists. split; [reflexivity|].
+  destruct (w_nodes w !! t_node t) as [n1|]; [destruct (n_active n1 && (t_layouts t <? n))|]; repeat split; reflexivity.
+Qed.
+
+Lemma extend_layouts_keeps w n live :
+  store_ok w live -> store_ok (extend_layouts w n) live /\ forall e, ent_cells (extend_layouts w n) e = ent_cells w e.
+Proof.
+  intros S.
+  assert (Hback : forall tid t', w_tables (extend_layouts w n) !! tid = Some t' -> exists t, w_tables w !! tid = Some t /\
+      t_ents t' = t_ents t /\ t_rows t' = t_rows t /\ t_node t' = t_node t /\ t_target t' = t_target t).
+  { intros tid t' Ht'. destruct (w_tables w !! tid) as [t|] eqn:Ht.
+    - destruct (extend_layouts_same w n tid t Ht) as (t2 & Ht2 & A & B & C & D & _). rewrite Ht' in Ht2. injection Ht2 as <-. by exists t.
+    - by rewrite extend_layouts_lookup, Ht in Ht'. }
+  split.
+  - split.
+    + apply S.
+    + intros e He. destruct (so_loc _ _ S e He) as (tid & row & t & Hl & Ht & Hr).
+      destruct (extend_layouts_same w n tid t Ht) as (t' & Ht' & A & _). exists tid, row, t'. split; [exact Hl|]. split; [done|congruence].
+    + intros tid t' row e Ht' Hr. destruct (Hback tid t' Ht') as (t & Ht & He & _). rewrite He in Hr.
+      by apply (so_rows _ _ S tid t row e).
+    + intros tid t' Ht'. destruct (Hback tid t' Ht') as (t & Ht & He & Hr & Hn & _).
+      destruct (so_table _ _ S tid t Ht) as (nd & Hnd & [Hc Hw Hz]). exists nd. rewrite Hn. split; [done|].
+      split; unfold tlen in *; rewrite ?He, ?Hr; done.
+  - intros e. unfold ent_cells. change (loc (extend_layouts w n) e) with (loc w e).
+    destruct (loc w e) as [[tid row]|]; [|done]. cbn [mbind option_bind].
+    destruct (w_tables w !! tid) as [t|] eqn:Ht.
+    + destruct (extend_layouts_same w n tid t Ht) as (t' & Ht' & A & B & C & D & _). rewrite Ht'. simpl. by rewrite B, C, D.
+    + by rewrite extend_layouts_lookup, Ht.
+Qed.
+
+Lemma register_rok w live issued key isrel zs w' id :
+  world_okr2 w live issued -> register_comp w key isrel zs = Some (w', id) ->
+  world_okr2 w' live issued /\ nodes_same w w' /\ (forall e, ent_cells w' e = ent_cells w e) /\
+  w_locks w' = w_locks w /\
+  (w_reg w' = w_reg w \/ (w_reg w' = w_reg w ++ [mkCI key isrel zs] /\ id = length (w_reg w))).
+Proof.
+  intros K H. unfold register_comp in H.
+  destruct (find_index _ _); [injection H as <- _; split; [done|]; split; [apply nodes_same_refl|]; split; [done|]; split; [done|by left]|].
+  destruct (w_tb w <=? length (w_reg w)) eqn:Htb; [done|]. apply Nat.leb_gt in Htb. destruct (is_locked w); [done|].
+  set (w1 := w <| w_reg := w_reg w ++ [mkCI key isrel zs] |>) in *.
+  destruct K as [[S G] P L].
+  assert (G1 : rgraph_ok w1).
+  { destruct G as [A1 A2 A3 A4 A5 A6 A7 A8 A9 A10 A11 A12]. split; try done.
+    - intros nid nd Hnd i. specialize (A2 nid nd Hnd i). unfold reg_is_rel in *. simpl.
+      destruct (decide (i < length (w_reg w))).
+      + by rewrite lookup_app_l.
+      + rewrite <- A2. split; intros [Hb Hr]; exfalso; apply (A3 nid nd i Hnd) in Hb; lia.
+    - intros nid nd i Hnd Hb. simpl. rewrite app_length. specialize (A3 nid nd i Hnd Hb). lia.
+    - simpl. rewrite app_length. simpl. lia. }
+  assert (S1 : store_ok w1 live).
+  { destruct S as [S1 S2 S3 S4]. by split. }
+  destruct (_ && _); injection H as <- <-.
+  - destruct (extend_layouts_keeps w1 (length (w_reg w) + 16) live S1) as [S2 Hc].
+    split; [split; [split|done|done]|].
+    + done.
+    + eapply (rgraph_ok_same_nodes w1); try done.
+      * intros tid t Ht. destruct (extend_layouts_same w1 (length (w_reg w) + 16) tid t Ht) as (t' & Ht' & A & B & C & D & E).
+        exists t'. repeat split; try done. intros. congruence.
+      * intros tid t' Ht'. apply lookup_lt_is_Some. apply lookup_lt_Some in Ht'. unfold extend_layouts in Ht'. simpl in Ht'.
+        by rewrite fmap_length in Ht'.
+    + split; [by apply nodes_same_eq|]. split; [done|]. split; [done|]. right. done.
+  - split; [split; [by split|done|done]|]. split; [by apply nodes_same_eq|]. split; [done|]. split; [done|]. by right.
+Qed.
+
+(** Component writes keep everything but the written cell. *)
+Lemma set_comp_rok w live issued e id v w' :
+  world_okr2 w live issued -> e ∈ live -> set_comp w e id v = Some w' ->
+  world_okr2 w' live issued /\ w_nodes w' = w_nodes w /\ w_reg w' = w_reg w /\ w_locks w' = w_locks w.
+Proof.
+  intros [[S G] P L] He H.
+  destruct (set_comp_spec w live e id v w' S He H) as (S1 & Hn & Hi & Hp & _).
+  unfold set_comp in H. destruct (chk_alive w e) as [[]|]; try done. destruct (loc w e) as [[tid row]|]; [|done].
+  destruct (w_tables w !! tid) as [t|] eqn:Ht; [|done]. destruct (w_nodes w !! t_node t); [|done]. destruct (col_of n id); [|done].
+  destruct (reg_is_zs w id); injection H as <-; [done|].
+  split; [|done]. split; [split; [done|]|by rewrite Hp|by rewrite Hi, Hp].
+  eapply (rgraph_ok_same_nodes w); try done.
+  - intros tid0 t0 Ht0. unfold upd_table. simpl. destruct (decide (tid0 = tid)) as [->|].
+    + rewrite list_lookup_insert by (by apply lookup_lt_Some in Ht). rewrite Ht in Ht0. injection Ht0 as <-. eexists. split; [reflexivity|done].
+    + rewrite list_lookup_insert_ne by done. by exists t0.
+  - intros tid0 t' Ht'. apply lookup_lt_is_Some. apply lookup_lt_Some in Ht'. unfold upd_table in Ht'. simpl in Ht'. by rewrite insert_length in Ht'.
+Qed.
+
+(** The initial world. *)
+Lemma world_init_rok capinc relcapinc tb : 0 < capinc -> world_okr2 (world_init capinc relcapinc tb) [] [].
+Proof.
+  intros Hc. destruct (world_init_ok capinc relcapinc tb Hc) as [[S _ _] P L].
+  split; [split; [done|]|done|done].
+  unfold world_init. cbn -[mask_ids replicate locks_init Nat.ltb].
+  split; simpl.
+  - intros nid nd H. destruct nid; simpl in H; [by injection H as <-|done].
+  - intros nid nd H. destruct nid; simpl in H; [|done]. injection H as <-. simpl. intros id.
+    rewrite bit_zero. split; [intros [? _]; done|done].
+  - intros nid nd id H Hb. destruct nid; simpl in H; [|done]. injection H as <-. simpl in Hb. by rewrite bit_zero in Hb.
+  - intros i j ni nj Hi Hj _. destruct i, j; simpl in *; done.
+  - intros tid t Ht. destruct tid; simpl in Ht; [|done]. injection Ht as <-. simpl. eexists. split; [reflexivity|].
+    simpl. split; [apply elem_of_list_here|done].
+  - intros nid nd tid H Hin. destruct nid; simpl in H; [|done]. injection H as <-. simpl in Hin.
+    apply elem_of_list_singleton in Hin as ->. eexists. split; [reflexivity|done].
+  - intros nid nd tg tid H Hg. destruct nid; simpl in H; [|done]. injection H as <-. done.
+  - intros nid nd H. destruct nid; simpl in H; [|done]. injection H as <-. simpl.
+    split; [apply NoDup_nil_2|intros ? Hx; by apply elem_of_nil in Hx].
+  - intros nid nd H _. destruct nid; simpl in H; [|done]. by injection H as <-.
+  - eexists _, _. split; [reflexivity|]. simpl. split; [reflexivity|done].
+  - split; [done|]. destruct (relcapinc <? 1) eqn:Hr; [done|]. apply Nat.ltb_ge in Hr. lia.
+  - lia.
+Qed.
